@@ -807,7 +807,9 @@ def run_shard(params: dict, ctx) -> None:
     D = directed_histories()
     mine = list(range(params["seed"] % 16, len(D), 16))
     if params.get("tier") == "quick":
-        mine = mine[(params["seed"] // 1000) % 4 :: 4]
+        # a quarter of the schedules per seed, plus always the ones inside the standalone wrapper's shutdown() (where d6b42f2 was)
+        always = [j for j in mine if D[j]["x"] == "shutdown" and D[j]["preempt"]["code"] == "shutdown"]
+        mine = sorted(set(mine[(params["seed"] // 1000) % 4 :: 4]) | set(always))
     for j in mine:
         h = D[j]
         ctx.count("kind:directed-preemption")
